@@ -46,6 +46,9 @@ def check(run, prog, tier):
     from ..report import RuleProxy
     c05.rule_U15(RuleProxy(run, "C03-J", keep=lambda construct, key: construct.split(".")[0] in (
         "Molecule", "AggregateBase", "Aggregate", "Mode", "SubMode", "OpenSystem")), prog)
+    run.rule("C03-K", "a molecule handed over as an object is found in the aggregate by identity, not through its name: names are "
+                      "labels (the default name is the same for every molecule) and couplings belong to positions", minimum=2)
+    rule_K(run, prog)
     run.rule("C03-A", "point-dipole interaction formula (TA)", minimum=2)
     run.rule("C03-B", "Coulomb constant in Debye/Angstrom/fs^-1 units (constant folding)", minimum=2)
     run.rule("C03-C", "coupling matrix is written symmetrically", minimum=2)
@@ -211,6 +214,57 @@ def eval_transition_dipole(prog, n):
             if not isinstance(got, Sym) or not got.same(exp):
                 bad.append((a, b, repr(got), repr(exp)))
     return bad, npairs, len(states)
+
+
+def rule_K(run, prog):
+    """'Elements between states that differ by moving one excitation equal the corresponding resonance coupling ...
+    invariant under relabelling of the molecules': the coupling matrix is indexed by the position of a molecule in
+    self.monomers.  self.mnames maps a *name* to one position - the last molecule registered under it; Molecule() without
+    a name has the name "" like every other.  A method of the aggregate that receives a molecule object and edits the
+    list of molecules or the coupling matrix finds its position through the object (self.monomers.index(obj), a search by
+    identity); looking the object up through obj.name (self.mnames[obj.name], get_Molecule_index(obj.name)) addresses
+    another molecule whenever names repeat, and the row and column of the wrong molecule are removed."""
+    rid = "C03-K"
+    cls = prog.cls("quantarhei.builders.aggregate_base.AggregateBase")
+    n = 0
+    for nme, f in cls.methods.items():
+        if not hasattr(f.node, "args"):
+            continue
+        params = [a.arg for a in f.node.args.args[1:]]
+        # parameters used as molecule objects: handed to self.monomers.<method>(p) or read through p.name / p.position
+        objs = set()
+        for x in walk_no_nested(f.node):
+            if isinstance(x, ast.Call) and isinstance(x.func, ast.Attribute) and norm(x.func.value) == "self.monomers" \
+                    and x.args and isinstance(x.args[0], ast.Name) and x.args[0].id in params:
+                objs.add(x.args[0].id)
+        if not objs:
+            continue
+        touches = any(isinstance(x, ast.Attribute) and x.attr == "resonance_coupling" for x in walk_no_nested(f.node)) or \
+            any(isinstance(x, ast.Call) and isinstance(x.func, ast.Attribute) and x.func.attr in ("remove", "pop", "insert")
+                and norm(x.func.value) == "self.monomers" for x in walk_no_nested(f.node))
+        if not touches:
+            continue
+        n += 1
+        prog.consulted.add(f.relpath)
+        bad = None
+        for x in walk_no_nested(f.node):
+            by_name = None
+            if isinstance(x, ast.Subscript) and norm(x.value) == "self.mnames":
+                by_name = x.slice
+            if isinstance(x, ast.Call) and isinstance(x.func, ast.Attribute) and norm(x.func.value) == "self" \
+                    and x.func.attr in ("get_Molecule_index", "get_Molecule_by_name") and x.args:
+                by_name = x.args[0]
+            if by_name is not None and isinstance(x.ctx if isinstance(x, ast.Subscript) else ast.Load(), ast.Load) \
+                    and isinstance(by_name, ast.Attribute) and by_name.attr == "name" and isinstance(by_name.value, ast.Name) \
+                    and by_name.value.id in objs:
+                bad = x
+        run.obligation(rid, f.short, bad is None, key="position-by-identity",
+                       message="%s is given the molecule as an object and finds its position with `%s`: the name is not unique (every "
+                               "molecule created without one is called the same), so the row and column of another molecule are "
+                               "edited - the couplings that remain belong to the wrong pairs of molecules" % (f.short, norm(bad) if bad else ""),
+                       loc=f.loc(bad) if bad else f.loc(f.node))
+    if n < 2:
+        raise AnalysisError("C03-K: only %d methods edit the aggregate for a molecule object (add_Molecule, remove_Molecule confirmed)" % n)
 
 
 def rule_G(run, prog):
